@@ -2573,7 +2573,8 @@ fn run_hash(case: &Value) -> u64 {
 // /Count) sits directly or behind 1-2 references, the numbers are dense / flipped / sparse, and
 // max_id is 0, 1, a number in the middle of the numbers in use, highest-1, highest, highest+100.
 
-const STALE_NUMBERINGS: [&str; 4] = ["asc", "rev", "flip", "sparse"];
+/// "gens": dense ascending numbers, generation 0 / 7 / 14 by number (max_id 0 and highest only)
+const STALE_NUMBERINGS: [&str; 5] = ["asc", "rev", "flip", "sparse", "gens"];
 const STALE_MAX: [&str; 6] = ["zero", "one", "median", "highest_minus_1", "highest", "highest_plus_100"];
 
 /// The kinds of indirection of one tree: the plain tree, every link of the reference-chain family,
@@ -2656,6 +2657,7 @@ fn stale_doc(t: &Tree, numbering: &str, link: &Value, hops: usize, max_mode: &st
         "asc" | "rev" => Box::new(|id| id),
         "flip" => Box::new(move |id: ObjectId| (highest + 1 - id.0.min(highest), id.1)),
         "sparse" => Box::new(|id: ObjectId| (id.0 * 997 + 3, id.1)),
+        "gens" => Box::new(|id: ObjectId| (id.0, (id.0 % 3) as u16 * 7)),
         _ => machinery("unknown numbering"),
     };
     let mut doc = renumbered(&b.doc, &*f);
@@ -2731,6 +2733,9 @@ fn explore_stale(run: &Run, max_calls: &AtomicU64, watch: &Watch) {
                     let mut todo: Vec<Value> = vec![stale_case(&t, "asc", &link, hops, "kept_by_lopdf", "add_object")];
                     for numbering in STALE_NUMBERINGS {
                         for max_mode in STALE_MAX {
+                            if numbering == "gens" && max_mode != "zero" && max_mode != "highest" {
+                                continue;
+                            }
                             todo.push(stale_case(&t, numbering, &link, hops, max_mode, "objects_insert"));
                         }
                     }
@@ -3523,7 +3528,7 @@ fn main() {
          Kids arrays direct / separate objects. \
          STALE max_id (all documents of all families are assembled through the public `objects` map): every valid tree with <= {} nodes x every kind of indirection (none; each Kids value, \
          each kid entry, each Count, the catalog's Pages, the trailer's Root, all links, all kid entries, /Type of each node, /Type of all nodes, everything at once) behind 1 and 2 references x \
-         numbering (dense ascending, dense reversed, flipped = the referenced helper objects get the LOWEST numbers, sparse n*997+3) x max_id in {{0, 1, the median number in use, highest-1, highest, \
+         numbering (dense ascending, dense reversed, flipped = the referenced helper objects get the LOWEST numbers, sparse n*997+3, and - max_id 0 and highest only - generations 0/7/14 by number) x max_id in {{0, 1, the median number in use, highest-1, highest, \
          highest+100}} - so the targets of the references lie above and below max_id - plus the same document assembled with new_object_id/add_object only; exact verdict (every form for max_id 0, \
          highest-1 and the add_object build, stepping + get_pages() for the rest). Every tree of the valid family once more under one of max_id 0 / 1 / highest-1 / highest+100 (in rotation), every \
          chain and every wide tree under all four. \
